@@ -41,10 +41,10 @@ type seen struct {
 }
 
 type backend struct {
-	ln    net.Listener
-	mu    sync.Mutex
-	log   []seen
-	port  int
+	ln     net.Listener
+	mu     sync.Mutex
+	log    []seen
+	port   int
 	silent bool // accept, read the request, never answer
 }
 
@@ -130,13 +130,14 @@ func (b *backend) take() []seen {
 // ---- cases ----
 
 type reqCase struct {
-	Method  string     `json:"method"`
-	Target  string     `json:"target"`
-	Headers [][2]string `json:"headers"`
-	Body    string     `json:"body"` // none | cl0 | small | chunked | big
-	Status  int        `json:"status"`
-	Framing string     `json:"framing"` // cl | chunked
-	Size    int        `json:"size"`
+	Method   string      `json:"method"`
+	Target   string      `json:"target"`
+	Headers  [][2]string `json:"headers"`
+	Body     string      `json:"body"` // none | cl0 | small | chunked | big
+	Status   int         `json:"status"`
+	Framing  string      `json:"framing"` // cl | chunked
+	Size     int         `json:"size"`
+	HostPort bool        `json:"host_with_port,omitempty"` // Host header carries the port of the public endpoint
 }
 
 type routeCfg struct {
@@ -440,7 +441,11 @@ func (w *world) runSeq(seq []reqCase) (viol string, inconclusive string) {
 	w.be.take()
 	for i, rc := range seq {
 		_ = c.SetDeadline(time.Now().Add(20 * time.Second))
-		writeRequest(c, w.host, rc)
+		host := w.host
+		if rc.HostPort {
+			host = fmt.Sprintf("%s:%d", w.host, w.port)
+		}
+		writeRequest(c, host, rc)
 		resp, err := http.ReadResponse(br, &http.Request{Method: rc.Method})
 		if err != nil {
 			if ne, ok := err.(net.Error); ok && ne.Timeout() {
@@ -457,7 +462,7 @@ func (w *world) runSeq(seq []reqCase) (viol string, inconclusive string) {
 		if len(logs) != 1 {
 			return fmt.Sprintf("request %d (%s %s): backend saw %d requests (user got status %d)", i, rc.Method, rc.Target, len(logs), resp.StatusCode), ""
 		}
-		if e := checkOne(rc, w.rt, w.host, c.LocalAddr().String(), logs[0], resp, body); e != "" {
+		if e := checkOne(rc, w.rt, host, c.LocalAddr().String(), logs[0], resp, body); e != "" {
 			return fmt.Sprintf("request %d (%s %s headers=%v body=%s -> %d/%s/%d) route %+v: %s", i, rc.Method, rc.Target, rc.Headers, rc.Body, rc.Status, rc.Framing, rc.Size, w.rt, e), ""
 		}
 	}
@@ -644,13 +649,13 @@ func main() {
 						continue
 					}
 					for _, r := range resps {
-						full = append(full, reqCase{m, t, headerSets[h], b, r.status, r.fr, r.size})
+						full = append(full, reqCase{m, t, headerSets[h], b, r.status, r.fr, r.size, false})
 					}
 				}
 			}
 		}
 	}
-	base := reqCase{"POST", "/a%20b?x=1&y=%26", headerSets["multi"], "small", 200, "chunked", 70000}
+	base := reqCase{"POST", "/a%20b?x=1&y=%26", headerSets["multi"], "small", 200, "chunked", 70000, false}
 	for _, m := range methods {
 		x := base
 		x.Method = m
@@ -679,12 +684,19 @@ func main() {
 		x.Status, x.Framing, x.Size = r.status, r.fr, r.size
 		axes = append(axes, x)
 	}
+	{
+		// the Host header names the port of the public endpoint, as a browser sends it for a non-default port
+		x := base
+		x.HostPort = true
+		axes = append(axes, x)
+		full = append(full, x)
+	}
 	// keep-alive sequences of length <= 3 over a 4-request alphabet
 	alpha := []reqCase{
-		{"GET", "/", nil, "none", 200, "cl", 5},
-		{"POST", "/a%2Fb", headerSets["multi"], "chunked", 200, "chunked", 70000},
-		{"HEAD", "/h", headerSets["xff"], "none", 200, "cl", 100},
-		{"PUT", "/p?x=%26", headerSets["hopbyhop"], "small", 404, "chunked", 10},
+		{"GET", "/", nil, "none", 200, "cl", 5, false},
+		{"POST", "/a%2Fb", headerSets["multi"], "chunked", 200, "chunked", 70000, false},
+		{"HEAD", "/h", headerSets["xff"], "none", 200, "cl", 100, false},
+		{"PUT", "/p?x=%26", headerSets["hopbyhop"], "small", 404, "chunked", 10, false},
 	}
 	var seqs [][]reqCase
 	for _, a := range alpha {
